@@ -78,7 +78,7 @@ def r1(F, R, w):
         return mb
     # Pause
     pt = out["Pause"]
-    reach = w.reach_from(pt, avoid=[head])
+    reach = K.reach_feasible(w, pt, avoid=[head])
     if D in reach:
         R.bad("C12-R1", w.path + ":pause->draw", site, "from the Pause outcome the draw is reachable without examining the mailbox again: a paused chain keeps drawing")
     else:
@@ -132,11 +132,11 @@ def r1(F, R, w):
         else:
             R.bad("C12-R1", w.path + ":pause->wait", site, "the command received while paused is not stored into the mailbox variable")
     for oc in ("Resume", "Empty"):
-        if D in w.reach_from(out[oc], avoid=[head]):
+        if D in K.reach_feasible(w, out[oc], avoid=[head]):
             R.ok("C12-R1", "%s:%s->draw" % (w.path, oc), site, "%s leads to the draw" % oc)
         else:
             R.bad("C12-R1", "%s:%s->draw" % (w.path, oc), site, "%s does not lead to the draw (a resumed chain stays stopped)" % oc)
-    if D in w.reach_from(out["Disconnected"]):
+    if D in K.reach_feasible(w, out["Disconnected"]):
         R.bad("C12-R1", w.path + ":Disconnected->draw", site, "after the controller hung up the chain can still draw")
     else:
         R.ok("C12-R1", w.path + ":Disconnected->draw", site, "Disconnected leaves the loop")
@@ -173,14 +173,14 @@ def r2(F, R, w, mb, rid="C12-R2"):
         R.ok(rid, w.path + ":one-message-per-draw", site, "exactly one mailbox refill per drawn iteration")
     else:
         R.bad(rid, w.path + ":one-message-per-draw", site, "paths from a computed draw back to the mailbox switch read the command channel %s times (expected exactly once)" % (r_try,))
-    # refill after the record
+    # no command-channel read between a computed draw and its record (the outcome could then depend on command timing)
     rb = sorted(rec)
-    for bb in tw:
-        if bb in w.reach_from(after, avoid=[head]) and rb:
-            if all(w.dominates(r0, bb) for r0 in rb):
-                R.ok(rid, w.path + ":refill-after-record", "%s @%s" % (w.path, loc(w.blocks[bb]["term"]["span"])), "mailbox refilled after the draw was recorded")
-            else:
-                R.bad(rid, w.path + ":refill-after-record", "%s @%s" % (w.path, loc(w.blocks[bb]["term"]["span"])), "command channel read between draw and record")
+    between = w.reach_from(after, avoid=rb + [head]) if after is not None else set()
+    inter = [bb for bb in tw if bb in between]
+    if inter:
+        R.bad(rid, w.path + ":refill-after-record", "%s @%s" % (w.path, loc(w.blocks[inter[0]]["term"]["span"])), "command channel read between draw and record")
+    else:
+        R.ok(rid, w.path + ":refill-after-record", site, "no command-channel read between a computed draw and its record")
     R.floor(rid, 3)
 
 
@@ -217,9 +217,13 @@ def r3(F, R, w, mb):
 
 def controller_loop(F):
     """Closure containing the controller's command loop (calls Receiver::recv_timeout on the command channel)."""
-    c = [b for b in F.bodies.values() if b.kind == "closure" and b.path.startswith("sampler::Sampler::<F>::new") and
-         b.calls_to(lambda c: path_ends(c["path"], "Receiver::recv_timeout"))]
-    return c[0] if len(c) == 1 else None
+    from . import inline as IN
+    cache = F.__dict__.setdefault("_controller_loop", {})
+    if "c" not in cache:
+        c = [b for b in F.bodies.values() if b.kind == "closure" and b.path.startswith("sampler::Sampler::<F>::new") and
+             b.calls_to(lambda c: path_ends(c["path"], "Receiver::recv_timeout"))]
+        cache["c"] = IN.inlined(F, c[0], IN.sampler_helper) if len(c) == 1 else None
+    return cache["c"]
 
 
 def command_arms(cl):
